@@ -181,7 +181,7 @@ fn deep_path() -> impl Strategy<Value = String> {
 }
 
 pub fn run(c: &Ctx) {
-    c.set_rule("exhaustive: all ordered pairs of the 121 clean absolute paths with <=4 components over {a,ab,b} (one name is a string prefix of another) and of the 40 with <=3 components over {~,$HOME,n~} (names are opaque to relative()), of the 40 over {a,A,b} (case matters), of the 85 over {a, 0xFF, 0xE9 'a', b} (names that are not valid UTF-8, compared on bytes) and of the 15 over {a,b} below a real tmpfs directory where a is a symlink to b/b (the function is lexical: what exists on disk is irrelevant); then seeded random pairs up to depth 12 over 18 names (multi-byte, spaces, dots, '~' and '$') with a shared random prefix in half of them. Stored link targets: every (link, target) pair over {a,ab} to depth 3 x {absolute, minimal relative, detour} spelling on Memfs and a third on Stdfs must store relative(abs(target), dir(link)). Oracle: result relative, (../)*normal*, clean(base/result)==path, #'..' == |base|-|common prefix|. Non-trivial = path!=base and the common prefix is shorter than both (needs '..' and normal parts); distinct by pair.");
+    c.set_rule("exhaustive: all ordered pairs of the 121 clean absolute paths with <=4 components over {a,ab,b} (one name is a string prefix of another) and of the 40 with <=3 components over {~,$HOME,n~} (names are opaque to relative()), of the 40 over {a,A,b} (case matters), of the 85 over {日,本,é,ü} (multi-byte names that share their lead bytes), of the 85 over {a, 0xFF, 0xE9 'a', b} (names that are not valid UTF-8, compared on bytes) and of the 15 over {a,b} below a real tmpfs directory where a is a symlink to b/b (the function is lexical: what exists on disk is irrelevant); then seeded random pairs up to depth 12 over 18 names (multi-byte, spaces, dots, '~' and '$') with a shared random prefix in half of them. Stored link targets: every (link, target) pair over {a,ab} to depth 3 x {absolute, minimal relative, detour} spelling on Memfs and a third on Stdfs must store relative(abs(target), dir(link)). Oracle: result relative, (../)*normal*, clean(base/result)==path, #'..' == |base|-|common prefix|. Non-trivial = path!=base and the common prefix is shorter than both (needs '..' and normal parts); distinct by pair.");
     let paths = all_paths(&["a", "ab", "b"], 4);
     let n = paths.len() as u64;
     par_for(n * n, 512, |i| {
@@ -223,6 +223,21 @@ pub fn run(c: &Ctx) {
             c.nontrivial(fp(&(p, b)));
         }
         c.class("exhaustive:case-variant-names");
+        c.judge("relative", &json!({"path":p,"base":b}), check_relative(p, b));
+    });
+    // multi-byte names whose encodings share their first bytes (a comparison that works on the bytes of the whole
+    // strings diverges inside a character)
+    let paths4 = all_paths(&["日", "本", "é", "ü"], 3);
+    let n4 = paths4.len() as u64;
+    par_for(n4 * n4, 512, |i| {
+        let (p, b) = (&paths4[(i / n4) as usize], &paths4[(i % n4) as usize]);
+        mark("relative", p);
+        c.eval(1);
+        let cm = common(p, b);
+        if p != b && cm < ncomps(p) && cm < ncomps(b) {
+            c.nontrivial(fp(&(p, b)));
+        }
+        c.class("exhaustive:multi-byte-names-sharing-lead-bytes");
         c.judge("relative", &json!({"path":p,"base":b}), check_relative(p, b));
     });
     // names that are not valid UTF-8
